@@ -942,7 +942,7 @@ def extract_fn(unit: str, file: str, item: str, mode: str, contracts, canary: bo
                     org_r = {'kind': 'insert', 'fn': fn_label, 'vc': '%s:%d' % (c.vc_file, rp.vc_line), 'tags': c.serves, 'rule': rp.rule}
                     info.n_asserts += n_as
                     info.proof_blocks.append(('%s:%d' % (c.vc_file, rp.vc_line), n_as))
-                edits.append((a, it.start + pe, rp.new, org_r))
+                edits.append((a, it.start + pe, resolve_names(rp.new, a), org_r))
                 info.rewrites.append('%s:%r' % (rp.rule, rp.old[:30]))
 
     if body_start_ins:
@@ -952,11 +952,11 @@ def extract_fn(unit: str, file: str, item: str, mode: str, contracts, canary: bo
 
     # automatic rewrites (R5 macros, R14 std paths) yield to explicit @replace ranges that cover them
     manual = [(s_, e_) for (s_, e_, r_, o_) in edits if isinstance(o_, dict) and o_.get('kind') in ('rewrite', 'insert')
-              and not str(o_.get('rule', '')).startswith(('R5:', 'R14:', 'A', 'R1', 'R8')) and e_ > s_]
+              and not str(o_.get('rule', '')).startswith(('R5:', 'R14:', 'A', 'R1', 'R8', 'R21')) and e_ > s_]
     def _covered(s_, e_):
         return any(ms <= s_ and e_ <= me for (ms, me) in manual)
     edits = [(s_, e_, r_, o_) for (s_, e_, r_, o_) in edits
-             if not (isinstance(o_, dict) and str(o_.get('rule', '')).startswith(('R5:', 'R14:')) and _covered(s_, e_))]
+             if not (isinstance(o_, dict) and (str(o_.get('rule', '')).startswith(('R5:', 'R14:')) or o_.get('rule') == 'R21') and _covered(s_, e_))]
     # apply: stable sort by (start, order of insertion)
     norm = []
     for idx, (s, e, r, o) in enumerate(edits):
